@@ -154,3 +154,81 @@ func GenHostileDoc(t *rapid.T, avoidFixed bool) Doc {
 	}
 	return doc
 }
+
+// TameCopy returns the same document with every name a spec author chose (component keys, property
+// names, operationIds, parameter names) replaced by a fresh tame identifier (n0, n1, ...), consistently
+// ($ref targets, required lists). Used as a counterfactual: a failure that disappears in the tame copy
+// is caused by the NAMES, not by the structure of the document.
+func TameCopy(d Doc) Doc {
+	names := map[string]string{}
+	tame := func(kind, s string) string {
+		k := kind + "\x00" + s
+		if v, ok := names[k]; ok {
+			return v
+		}
+		v := fmt.Sprintf("%s%d", kind, len(names))
+		names[k] = v
+		return v
+	}
+	var cp func(s *Schema) *Schema
+	cp = func(s *Schema) *Schema {
+		if s == nil {
+			return nil
+		}
+		c := *s
+		if s.Ref != "" {
+			c.Ref = tame("C", s.Ref)
+			return &c
+		}
+		c.Items = cp(s.Items)
+		c.AddProps = cp(s.AddProps)
+		c.Props = nil
+		for _, p := range s.Props {
+			c.Props = append(c.Props, Prop{Name: tame("p", p.Name), Schema: cp(p.Schema), Required: p.Required})
+		}
+		cpl := func(l []*Schema) []*Schema {
+			var out []*Schema
+			for _, x := range l {
+				out = append(out, cp(x))
+			}
+			return out
+		}
+		c.AllOf, c.OneOf, c.AnyOf = cpl(s.AllOf), cpl(s.OneOf), cpl(s.AnyOf)
+		return &c
+	}
+	out := Doc{Version: d.Version, Components: Components{}}
+	for _, n := range d.Components.Names() {
+		out.Components[tame("C", n)] = cp(d.Components[n])
+	}
+	for _, op := range d.Ops {
+		o := op
+		o.ID = tame("op", op.ID)
+		o.Params = nil
+		for _, p := range op.Params {
+			q := p
+			if p.In != "header" {
+				q.Name = tame("q", p.Name)
+			}
+			q.Schema = cp(p.Schema)
+			o.Params = append(o.Params, q)
+		}
+		if op.Body != nil {
+			b := *op.Body
+			b.Media = nil
+			for _, m := range op.Body.Media {
+				b.Media = append(b.Media, Media{ContentType: m.ContentType, Schema: cp(m.Schema)})
+			}
+			o.Body = &b
+		}
+		o.Responses = nil
+		for _, r := range op.Responses {
+			rr := Response{Code: r.Code, Headers: r.Headers}
+			for _, m := range r.Media {
+				rr.Media = append(rr.Media, Media{ContentType: m.ContentType, Schema: cp(m.Schema)})
+			}
+			o.Responses = append(o.Responses, rr)
+		}
+		out.Ops = append(out.Ops, o)
+	}
+	return out
+}
